@@ -128,7 +128,7 @@ CLAIMS = {
 
 NOT_APPLICABLE = [
     {"property_id": p, "reason": "not yet claimed in this round: model / theorems / correspondence stage under construction (see DESIGN.md §7 build order); no technique switch intended"}
-    for p in ["C09"]
+    for p in []
 ]
 
 NOTES = "See DESIGN.md. Every check re-checks its Lean theorems (lake build + #print axioms audit), rebuilds the harness against /repo's working tree, runs the correspondence for the stages in the property's cone and evaluates the property's executable oracle on the implementation's outputs."
